@@ -137,10 +137,11 @@ impl<R: RealNumberInternalTrait> std::ops::Add<Number<R>> for Number<R> {
     type Output = Number<R>;
     fn add(self, rhs: Number<R>) -> Number<R> {
         match upcast_oprands((self, rhs)) {
-            NumberBinaryOperand::Integer(a, b) => Number::Integer(a + b),
+            NumberBinaryOperand::Integer(a, b) => Number::from_ratio(a as i64 + b as i64, 1),
             NumberBinaryOperand::Real(a, b) => Number::Real(a + b),
             NumberBinaryOperand::Rational(a1, a2, b1, b2) => {
-                Number::Rational(a1 * b2 + a2 * b1, a2 * b2)
+                let (a1, a2, b1, b2) = (a1 as i64, a2 as i64, b1 as i64, b2 as i64);
+                Number::from_ratio(a1 * b2 + a2 * b1, a2 * b2)
             }
         }
     }
@@ -150,10 +151,11 @@ impl<R: RealNumberInternalTrait> std::ops::Sub<Number<R>> for Number<R> {
     type Output = Number<R>;
     fn sub(self, rhs: Number<R>) -> Number<R> {
         match upcast_oprands((self, rhs)) {
-            NumberBinaryOperand::Integer(a, b) => Number::Integer(a - b),
+            NumberBinaryOperand::Integer(a, b) => Number::from_ratio(a as i64 - b as i64, 1),
             NumberBinaryOperand::Real(a, b) => Number::Real(a - b),
             NumberBinaryOperand::Rational(a1, a2, b1, b2) => {
-                Number::Rational(a1 * b2 - a2 * b1, a2 * b2)
+                let (a1, a2, b1, b2) = (a1 as i64, a2 as i64, b1 as i64, b2 as i64);
+                Number::from_ratio(a1 * b2 - a2 * b1, a2 * b2)
             }
         }
     }
@@ -163,9 +165,12 @@ impl<R: RealNumberInternalTrait> std::ops::Mul<Number<R>> for Number<R> {
     type Output = Number<R>;
     fn mul(self, rhs: Number<R>) -> Number<R> {
         match upcast_oprands((self, rhs)) {
-            NumberBinaryOperand::Integer(a, b) => Number::Integer(a * b),
+            NumberBinaryOperand::Integer(a, b) => Number::from_ratio(a as i64 * b as i64, 1),
             NumberBinaryOperand::Real(a, b) => Number::Real(a * b),
-            NumberBinaryOperand::Rational(a1, a2, b1, b2) => Number::Rational(a1 * b1, a2 * b2),
+            NumberBinaryOperand::Rational(a1, a2, b1, b2) => {
+                let (a1, a2, b1, b2) = (a1 as i64, a2 as i64, b1 as i64, b2 as i64);
+                Number::from_ratio(a1 * b1, a2 * b2)
+            }
         }
     }
 }
@@ -176,9 +181,10 @@ impl<R: RealNumberInternalTrait> std::ops::Div<Number<R>> for Number<R> {
         match upcast_oprands((self, rhs)) {
             NumberBinaryOperand::Integer(a, b) => {
                 check_division_by_zero(b)?;
+                let (a, b) = (a as i64, b as i64);
                 match a % b {
-                    0 => Ok(Number::Integer(a / b)),
-                    _ => Ok(Number::Rational(a, b)),
+                    0 => Ok(Number::from_ratio(a / b, 1)),
+                    _ => Ok(Number::from_ratio(a, b)),
                 }
             }
             NumberBinaryOperand::Real(a, b) => Ok(Number::Real(a / b)),
@@ -186,18 +192,32 @@ impl<R: RealNumberInternalTrait> std::ops::Div<Number<R>> for Number<R> {
                 check_division_by_zero(b1)?;
                 check_division_by_zero(a2)?;
                 check_division_by_zero(b2)?;
-                Ok(Number::Rational(a1 * b2, a2 * b1))
+                let (a1, a2, b1, b2) = (a1 as i64, a2 as i64, b1 as i64, b2 as i64);
+                Ok(Number::from_ratio(a1 * b2, a2 * b1))
             }
         }
     }
 }
 
 impl<R: RealNumberInternalTrait> Number<R> {
+    // The exact number num / den (den != 0), kept with a positive denominator, or its
+    // inexact approximation when it does not fit the exact representation.
+    pub(crate) fn from_ratio(num: i64, den: i64) -> Self {
+        let (num, den) = if den < 0 { (-num, -den) } else { (num, den) };
+        if num < i32::MIN as i64 || num > i32::MAX as i64 || den > i32::MAX as i64 {
+            Number::Real(R::from(num).unwrap() / R::from(den).unwrap())
+        } else if den == 1 {
+            Number::Integer(num as i32)
+        } else {
+            Number::Rational(num as i32, den as i32)
+        }
+    }
+
     pub fn abs(self) -> Number<R> {
         match self {
-            Number::Integer(num) => Number::Integer(num.abs()),
+            Number::Integer(num) => Number::from_ratio((num as i64).abs(), 1),
             Number::Real(num) => Number::Real(num.abs()),
-            Number::Rational(a, b) => Number::Rational(a.abs(), b.abs()),
+            Number::Rational(a, b) => Number::from_ratio((a as i64).abs(), (b as i64).abs()),
         }
     }
 
